@@ -348,27 +348,48 @@ def load_sync(repo):
     return m
 
 
+class CloneError(Exception):
+    """The object could not be rebuilt from its own pickled state."""
+
+
 def clone_for_process(syn, obj):
     """What a loky child gets: the object rebuilt from its pickled state (ownership counters of
-    every SemLock start afresh, kernel semaphores are shared by name)."""
+    every SemLock start afresh, kernel semaphores are shared by name). Goes through the real
+    ``__getstate__`` / ``__setstate__`` pair of each class (``assert_spawning`` answered "yes"),
+    so that what is carried in the pickle, and what is not, is the implementation's decision."""
+    kinds = (syn.SemLock, syn.Condition, syn.Event)
+
+    def walk(x):
+        if isinstance(x, kinds):
+            return cp(x)
+        if isinstance(x, tuple):
+            return tuple(walk(y) for y in x)
+        if isinstance(x, list):
+            return [walk(y) for y in x]
+        if isinstance(x, dict):
+            return {k: walk(y) for k, y in x.items()}
+        return x
+
     def cp(o):
-        if isinstance(o, syn.SemLock):
-            sl = o._semlock
-            n = o.__class__.__new__(o.__class__)
-            n.__setstate__((sl.handle, sl.kind, sl.maxvalue, sl.name))
-            return n
-        if isinstance(o, syn.Condition):
-            n = syn.Condition.__new__(syn.Condition)
-            n.__setstate__((cp(o._lock), cp(o._sleeping_count), cp(o._woken_count),
-                            cp(o._wait_semaphore)))
-            return n
-        if isinstance(o, syn.Event):
-            n = syn.Event.__new__(syn.Event)
-            n._cond = cp(o._cond)
-            n._flag = cp(o._flag)
-            return n
-        raise TypeError(o)
-    return cp(obj)
+        n = o.__class__.__new__(o.__class__)
+        if hasattr(o.__class__, "__getstate__") and o.__class__.__getstate__ is not object.__getstate__:
+            state = walk(o.__getstate__())
+        else:
+            state = walk(dict(o.__dict__))
+        if hasattr(n, "__setstate__"):
+            n.__setstate__(state)
+        else:
+            n.__dict__.update(state)
+        return n
+
+    saved = syn.__dict__.get("assert_spawning")
+    syn.assert_spawning = lambda o: None
+    try:
+        return cp(obj)
+    except Exception as e:
+        raise CloneError(f"{type(obj).__name__}: {type(e).__name__}: {e}") from e
+    finally:
+        syn.assert_spawning = saved
 
 
 def explore(build, repo, key_files, maxexec=10 ** 7):
@@ -384,7 +405,13 @@ def explore(build, repo, key_files, maxexec=10 ** 7):
         prefix = stack.pop()
         S = Sched(prefix, visited, stack, key_files)
         syn = load_sync(repo)
-        fns, oracle = build(S, syn)
+        try:
+            fns, oracle = build(S, syn)
+        except CloneError as e:
+            # the harness could not even be set up: a copy pickled to a child does not rebuild
+            violations.append(("copy-rebuild-failed", str(e), []))
+            n += 1
+            break
         v = S.run(fns)
         n += 1
         trans += S.ntrans
